@@ -393,7 +393,7 @@ def run_api_property(ctx, pid, gen_cases, oracle, classify, rule, assumptions, k
                                 lambda c, r, _w=w: (oracle(c, r) or (None, ""))[1][:25] == _w[:25])
         rs = A.run_impl(ctx, [small], pid.lower() + "_shrink", procs=1)[0]
         verdict.add(key, w, {"kind": "failing-input", "case": small, "observed": rs, "oracle": w})
-    if not failing and not side:
+    if not verdict.findings_with_input():       # nothing found that is not a listed known finding
         if not proof["build_ok"]:
             verdict.add("proof-broken", "proof obligation of %s no longer checks (%s) and no failing request sequence was found among %d"
                         % (pid, ", ".join(proof.get("broken", [])), len(cases)),
